@@ -27,6 +27,17 @@ def v(a):
 def k(key, trace, fb):
     return " ".join(["k", hx(key), hx(trace), fb])
 E = "e"
+def KM(kd):
+    t = {"deadline": "context deadline exceeded", "canceled": "context canceled", "eof": "EOF", "notexist": "file does not exist",
+         "patherr": "open /x: file does not exist"}
+    if kd in t:
+        return t[kd]
+    base = kd
+    for pre in ("nil", "nz", "z", "e"):
+        if base.startswith(pre) and base[len(pre):] in ("struct", "int", "string", "array", "ptr", "slice", "map", "func", "chan"):
+            base = base[len(pre):]
+            break
+    return "K:" + base
 
 files = {
  "log.multilog-nil.ops": [
@@ -169,6 +180,17 @@ files = {
     log("h0", 0, "m", " ".join(["l", hx("err"), hx("first\nsecond"), "x", hx("first\nsecond")])),
     log("h0", 0, "m", " ".join(["l", hx("k\nl"), hx("1"), "i", "1"])),
     "wg h1 h0 " + hx("g\nh"), log("h1", 0, "m", i("n", 1)),
+ ],
+ "log.errkinds.ops": [
+    "# errors of every dynamic kind from a child and through errs.Log*: zero values of non-nillable kinds (struct{}, int 0,",
+    "# empty string, zero array, context.DeadlineExceeded) ARE errors; only nil values of nillable kinds are not",
+    "reset", "new h0 1 0 0", "new h1 2 0 0", "mnew m h0 h1",
+    "mode 2 failk:deadline", log("m", 8, "one child fine, one fails with context.DeadlineExceeded"),
+    "mode 1 failk:zstruct", log("m", 8, "two failing children, zero-valued errors: two errors"),
+    "mode 1 ok", "mode 2 ok",
+ ] + [x for kd in ['zstruct', 'zint', 'zstring', 'zarray', 'nzstruct', 'nzint', 'nzstring', 'nzarray', 'ptr', 'zptr', 'slice', 'eslice', 'map', 'emap', 'func', 'chan', 'nilptr', 'nilslice', 'nilmap', 'nilfunc', 'nilchan', 'deadline', 'canceled', 'eof', 'notexist', 'patherr'] for x in ("mode 2 failk:" + kd, log("m", 8, "child returns " + kd), log("h1", 8, "direct " + kd),
+        " ".join(["logx", "LogTo", "bg", "h", "k:" + kd, "h0", "8", hx({'deadline': 'context deadline exceeded', 'canceled': 'context canceled', 'eof': 'EOF', 'notexist': 'file does not exist', 'patherr': 'open /x: file does not exist'}.get(kd, "K:" + kd.lstrip("nz").replace("nil", "").replace("e", "", 1) if False else None) or KM(kd))]))] + [
+    "mode 2 ok", log("m", 8, "all fine again"),
  ],
  "log.sentinel.ops": [
     "# a child that returns one long-lived *errs.Error: Handle's aggregate must be built beside it, never into it;",
